@@ -1,6 +1,8 @@
 package main
 
 import (
+	"os"
+	"runtime/debug"
 	"fmt"
 	"go/types"
 	"strings"
@@ -273,7 +275,12 @@ func zeroValue(t types.Type) Value {
 type unsupportedErr struct{ msg string }
 
 func (u unsupportedErr) Error() string { return "unsupported: " + u.msg }
-func unsupported(msg string) error     { return unsupportedErr{msg} }
+func unsupported(msg string) error {
+	if os.Getenv("GOVC_DEBUG") == "2" {
+		debug.PrintStack()
+	}
+	return unsupportedErr{msg}
+}
 
 func typeKey(t types.Type) string {
 	if b, ok := t.(*types.Basic); ok && b.Kind() != types.UnsafePointer && b.Kind() < types.UntypedBool {
